@@ -38,7 +38,7 @@ func init() {
 }
 
 func c08Data(r *gen.R, minRank, maxRank int) *ref.T {
-	dt := gen.All14[r.Intn(len(gen.All14))]
+	dt := gen.Data13[r.Intn(len(gen.Data13))]
 	if r.Chance(0.5) {
 		dt = r.PickDT(ref.F32, ref.F32, ref.I64, ref.F64, ref.I32)
 	}
@@ -318,6 +318,9 @@ func genExpand(r *gen.R, validOnly bool) (mon.OpReq, Expect, bool) {
 }
 
 func c08Run(c *Ctx) {
+	if c.Idx == 0 {
+		c08StringProbe(c)
+	}
 	var req mon.OpReq
 	var exp Expect
 	ok := false
